@@ -6,6 +6,9 @@ from vlib import effects
 from vlib.rulelib import *
 from vlib.engine import Broken, line_path
 
+# inserting a fresh record (not an overwrite of an existing one) and the lookup are steps of their own
+REVOKE_STEPS = ("insert_revoke_hash", "find_revoke_record")
+
 EXPLANATION = (
     "GUARD/ORDER rules over clang CFGs of e2fsck/recovery.c and revoke.c as built for e2fsck and for debugfs, plus a SIBLING "
     "rule over e2fsck/journal.c and debugfs/journal.c: filesystem-device writes of recovery happen only in PASS_REPLAY, revoke "
